@@ -105,6 +105,9 @@ def prim[Node](
     if not graph:
         return Result([], 0.0, 0, 0)
 
+    # Neighbour lists are read more than once; materialise them so that one-shot iterables work too
+    graph = {node: list(neighbors) for node, neighbors in graph.items()}
+
     nodes = set(graph.keys())
     for neighbors in graph.values():
         for neighbor, _ in neighbors:
